@@ -15,7 +15,7 @@ use tokio::{
     io::{AsyncWriteExt, BufWriter},
     sync::mpsc::{channel, Receiver, Sender},
 };
-use tracing::info;
+use tracing::{info, warn};
 
 #[cfg(unix)]
 use tokio::signal::unix::{signal, SignalKind};
@@ -133,7 +133,15 @@ async fn log_thread(
     loop {
         let e = rx.recv().await.ok_or_else(|| err_msg("dequeue"))?;
         if let Some(e) = e {
-            let mut line = format.to_string(e).context("deserializer error")?;
+            // a record the format script cannot render (an error that depends on the request) is skipped:
+            // it must not end the log task, whose failure ends the process
+            let mut line = match format.to_string(e) {
+                Ok(line) => line,
+                Err(err) => {
+                    warn!("access log: record skipped, format error: {} cause: {:?}", err, err.cause);
+                    continue;
+                }
+            };
             line += "\r\n";
             stream
                 .write(line.as_bytes())
